@@ -115,26 +115,33 @@ class SocWorld(World):
         D = rng.choice([d for d in (8, 16, 32, 64) if d >= cw])
         ratio = D // cw
         al = rng.choice([0, 0, 1, 2])
+        items, need = self._gen_wb_items(rng, cw, ratio, al, 0, 10)
+        gaw = max(log2(ratio) + 1, 3, need) + rng.choice([0, 0, 1])
+        return {"root": "wb", "cw": cw, "D": D, "gaw": gaw, "al": al, "items": items,
+                "hwseed": rng.bits(32)}
+
+    def _gen_wb_items(self, rng, cw, ratio, al, depth, max_gaw):
+        """Returns (items, address width needed to hold them)."""
         items = []
         cursor = 0
-        max_gaw = 10
-        for i in range(rng.range(1, 4)):
-            kind = rng.wchoice([("sram", 3), ("bridge", 5), ("wbdec", 1)])
+        for i in range(rng.range(1, 4) if depth == 0 else rng.range(1, 2)):
+            kind = rng.wchoice([("sram", 3), ("bridge", 5), ("wbdec", 2 if depth == 0 else 0)])
             if kind == "sram":
                 saw = rng.range(max(1, log2(ratio)), 5)
                 it = {"t": "sram", "size": 1 << saw, "writable": int(rng.chance(0.8)),
-                      "name": None if rng.chance(0.3) else f"ram{i}", "addr_sel": None}
+                      "name": None if rng.chance(0.3) else f"ram{depth}_{i}", "addr_sel": None}
             elif kind == "bridge":
-                tree, saw = self._gen_csr_tree(rng, cw, 0, 8)
+                tree, saw = self._gen_csr_tree(rng, cw, 0, 8 if depth == 0 else 6)
                 saw = max(saw, log2(ratio), 1)
                 tree["aw"] = saw
                 it = {"t": "bridge", "tree": tree,
-                      "name": None if rng.chance(0.4) else f"csr{i}", "addr_sel": None}
+                      "name": None if rng.chance(0.4) else f"csr{depth}_{i}", "addr_sel": None}
             else:
-                ssz = rng.range(max(1, log2(ratio)), 4)
-                saw = ssz + rng.range(1, 2)
-                it = {"t": "wbdec", "gaw": saw, "al": rng.choice([0, 1]), "sram_size": 1 << ssz,
-                      "name": None if rng.chance(0.3) else f"sub{i}", "addr_sel": None}
+                sal = rng.choice([0, 1])
+                sub_items, need = self._gen_wb_items(rng, cw, ratio, sal, depth + 1, max_gaw - 1)
+                saw = max(need, log2(ratio) + 1, 2) + rng.choice([0, 1])
+                it = {"t": "wbdec", "gaw": saw, "al": sal, "items": sub_items,
+                      "name": None if rng.chance(0.3) else f"sub{depth}_{i}", "addr_sel": None}
             span = 1 << max(saw, al)
             nxt = (cursor + span - 1) // span * span + span
             if (nxt - 1).bit_length() > max_gaw:
@@ -142,10 +149,10 @@ class SocWorld(World):
             cursor = nxt
             if rng.chance(0.15):
                 it["addr_sel"] = rng.below(8)
+            if rng.chance(0.1):
+                it["align_to"] = rng.range(0, 4)
             items.append(it)
-        gaw = max(log2(ratio) + 1, 3, (max(cursor, 1) - 1).bit_length()) + rng.choice([0, 0, 1])
-        return {"root": "wb", "cw": cw, "D": D, "gaw": gaw, "al": al, "items": items,
-                "hwseed": rng.bits(32)}
+        return items, (max(cursor, 1) - 1).bit_length()
 
     def gen_ops(self, rng, config, prop):
         ops = []
@@ -280,11 +287,12 @@ class SocWorld(World):
                     else:
                         nd = hw.construct(wishbone.Decoder, addr_width=it["gaw"] - log2(ratio),
                                           data_width=D, granularity=cw, alignment=it["al"])
-                        inner = make_sram(it["sram_size"], 1, len(ctx["srams"]))
-                        nd.add(inner.wb_bus, name="ram")
+                        add_items(nd, it["items"], it["gaw"])
                         ctx["mods"].append(nd)
                         sub = nd.bus
                     kw = {}
+                    if it.get("align_to") is not None:
+                        dec.align_to(it["align_to"])
                     if it.get("addr_sel") is not None:
                         span_aw = sub.memory_map.addr_width
                         slots = (1 << space_aw) >> span_aw
